@@ -68,7 +68,7 @@ func run(c *lib.Ctx) error {
 	wg.Add(1)
 	go func() {
 		defer wg.Done()
-		ms := []string{"CONSTANTS Clients = {1, 2} MaxOps = 2 Pool <- PoolSmall\n"}
+		ms := []string{"CONSTANTS Clients = {1, 2} MaxOps = 2 Pool <- PoolTiny\n"}
 		if c.Thorough() {
 			ms = []string{"CONSTANTS Clients = {1, 2} MaxOps = 2 Pool <- PoolAll\n", "CONSTANTS Clients = {1, 2, 3} MaxOps = 1 Pool <- PoolAll\n", "CONSTANTS Clients = {1, 2, 3} MaxOps = 2 Pool <- PoolSmall\n"}
 		}
@@ -129,7 +129,7 @@ func run(c *lib.Ctx) error {
 
 	if d := os.Getenv("VERIF_C26_DUMP"); d != "" { // development aid: write the recorded histories
 		for i, h := range hists {
-			os.WriteFile(fmt.Sprintf("%s/h%03d.ndjson", d, i), lib.NDJSON(h.Rebased(0)), 0o644)
+			os.WriteFile(fmt.Sprintf("%s/h%03d.ndjson", d, i), lib.NDJSON(h.Rebased(0, 1)), 0o644)
 		}
 		return lib.Infra("histories dumped to %s", d)
 	}
@@ -188,9 +188,9 @@ func judgeAll(c *lib.Ctx, dir string, hists []History) error {
 func validate(c *lib.Ctx, dir, name string, hs []History) (int, error) {
 	var evs []Event
 	var starts []int
-	for _, h := range hs {
+	for i, h := range hs {
 		starts = append(starts, len(evs))
-		evs = append(evs, h.Rebased(len(evs))...)
+		evs = append(evs, h.Rebased(len(evs), i+1)...)
 	}
 	v, err := lib.ValidateTrace(c, name, dir, "TraceDaemonLin", evs, 10*time.Minute)
 	if err != nil {
@@ -215,7 +215,7 @@ func validate(c *lib.Ctx, dir, name string, hs []History) (int, error) {
 // classify re-validates one rejected history alone to obtain the diagnostics (DUP) and the
 // longest accepted prefix for the report.
 func classify(c *lib.Ctx, dir string, h History) (key, what string) {
-	evs := h.Rebased(0)
+	evs := h.Rebased(0, 1)
 	v, err := lib.ValidateTrace(c, "TraceDaemonLin(classify)", dir, "TraceDaemonLin", evs, 10*time.Minute)
 	if err != nil || v.Accepted {
 		return "lin:not-linearizable", fmt.Sprintf("history rejected in its batch (alone: accepted=%v err=%v)", v != nil && v.Accepted, err)
